@@ -56,6 +56,16 @@ pub fn run_typed(rows: &DeserializedMetadataAndRawRows) -> u32 {
         }
         2 => {
             t2!((i32, String), (i32, &str), (CqlValue, CqlValue), (Option<i32>, Option<String>), (uuid::Uuid, Vec<i32>), (String, i32), (i64, i64));
+            // every scalar / collection target in second position behind a dynamic first column, and vice versa
+            macro_rules! second {
+                ($($t:ty),* $(,)?) => { $( n += try_one::<(CqlValue, $t)>(rows); n += try_one::<($t, Option<CqlValue>)>(rows); )* };
+            }
+            second!(
+                i8, i16, i32, i64, f32, f64, bool, String, &str, Vec<u8>, &[u8], uuid::Uuid, CqlTimeuuid, IpAddr, CqlDate, CqlTime, CqlTimestamp, CqlDuration, CqlDecimal, CqlVarint, Counter,
+                Option<i32>, MaybeEmpty<i32>, Vec<i32>, Vec<String>, Vec<CqlValue>, HashSet<i32>, BTreeSet<String>, HashMap<String, i32>, BTreeMap<i32, String>, (i32, String), (i32, String, Vec<i32>),
+                chrono::NaiveDate, chrono::DateTime<chrono::Utc>, time::OffsetDateTime, num_bigint::BigInt, bigdecimal::BigDecimal,
+                scylla_cql::deserialize::value::UdtIterator, scylla_cql::deserialize::value::ListlikeIterator<CqlValue>,
+            );
         }
         3 => {
             n += try_one::<(uuid::Uuid, Vec<i32>, CqlValue)>(rows);
